@@ -3,7 +3,7 @@ from common import *
 
 ID = "C09"
 GEN = []
-THEOREMS = ["C09_strings_partial", "C09_body_has_no_quote", "C09_strings_value_partial", "C09_refuted_escaped_quote"]
+THEOREMS = ["C09_strings_roundtrip", "C09_strings_value_roundtrip", "C09_reader_inverts_display", "C09_escaped_quote_reads_back"]
 COQ_HEADER = ("From Coq Require Import List NArith ZArith.\nFrom RV Require Import Run.C09.\n"
               "Import ListNotations.\nLocal Open Scope N_scope.")
 RUN_EXPR = "Run.C09.run"
@@ -152,7 +152,8 @@ def gen_cases(ctx, tier):
              {"kind": "sheet", "src": ".nbsp{grid-area:main\\a0 area;animation-name:fade\\a0 in, plain}@keyframes k{from{counter-reset:x\\a0 y 1}}"},
              {"kind": "sheet", "src": "a{b:x\\9f y x\\80 y \\a0 z x\\ff y}"},
              {"kind": "sheet", "src": "a{b:x\\a1 y}"},
-             {"kind": "probe", "raw": "a\\\"b", "dq": True, "src": 'a{b:"a\\"b"}'}]
+             {"kind": "probe", "raw": "a\\\"b'c", "dq": True, "src": 'a{b:"a\\"b\'c"}'},
+             {"kind": "sheet", "src": 'a{b:"a\\"b\'c" "t\\\\"}'}, {"kind": "sheet", "src": 'a{b:"\ue000a" "\ue000 x" "\ue000z"}'}]
     n = 700 if tier == "quick" else 7000
     for _ in range(n):
         cases.append({"kind": "sheet", "src": gen_sheet(rng)})
@@ -194,23 +195,25 @@ def coq_term(c, io):
     return f"(mkCase {cbytes(c['src'])} {out_coq(o1)} {out_coq(o2)} None)"
 
 
-K1 = "known_C09_escaped_quote_in_string"
+K1 = "known_C09_private_use_before_hex_or_space"
 K2 = "known_C09_latin1_symbol_in_identifier"
+K3 = "known_C09_control_escape_respaced"
 
 
 def judge(c, io, r):
-    corr, p1, k1, k2 = r
+    corr, p1, k1, k2, k3 = r
     return {"corr": None if corr == 2 else corr == 1,
-            "clauses": [] if c["kind"] == "probe" else [("reads-back-the-same", p1 == 1, K1 if k1 else (K2 if k2 else None))],
+            "clauses": [] if c["kind"] == "probe" else [("reads-back-the-same", p1 == 1, K1 if k1 else (K2 if k2 else (K3 if k3 else None)))],
             "nontrivial": c["kind"] == "probe" or (io[0][0] == "ok" and bool(io[0][1][0])),
             "tags": [c["kind"], io[0][0]],
             "show": c["src"][:200], "detail": {"src": c["src"], "second": c.get("_o2")}, "key": c["src"]}
 
 
-LEVEL_TEXT = ("proof (partial): for ALL code-point lists that do not contain the string's own quote character, in either quoting, "
-              "Display of a quoted CssString followed by the plain-CSS quoted-string reader and Display again gives the same text "
-              "and the reader consumes exactly the string; the full statement is refuted for strings containing their quote "
-              "character (F12); the reader/Display models are tied to rsass by string probes, and the stylesheet-level round trip "
+LEVEL_TEXT = ("proof (partial): for ALL code-point lists without backslash and private-use characters - the string's own quote "
+              "character included - in either quoting, Display of a quoted CssString followed by the plain-CSS quoted-string reader "
+              "(rsass 4637bd2) and Display again gives the same text, the reader consumes exactly the string, also through the value "
+              "parser's pref_dquotes; the reader/Display models are tied to rsass by string probes, and the stylesheet-level round trip "
               "is decided in Coq on generated stylesheets of the construct subset")
-LEVEL_NOTE = "partial: only the quoted-string leaf is proved; selectors, numbers, url() and at-rules are explored"
+LEVEL_NOTE = ("partial: only the quoted-string leaf is proved (escapes other than the escaped quote are outside the reader model); "
+              "selectors, numbers, url() and at-rules are explored")
 TECHNIQUE = "Coq proof (induction over code-point lists) + differential correspondence + round-trip exploration"
